@@ -156,7 +156,10 @@ RoundTripTrig ==
        /\ <<QMul(Q(r), QMul(st, cp)), QMul(Q(r), QMul(st, sp)), QMul(Q(r), ct)>> = <<Q(v[1]), Q(v[2]), Q(v[3])>>
 
 \* ------------------------------------------------------------------ 2. poles
-HKLs == {<<1, 0, 0>>, <<0, 1, 0>>, <<0, 0, 1>>, <<1, 1, 0>>, <<1, 1, 1>>, <<1, 2, 3>>}
+\* crystal directions: the principal axes and their NEGATIVES (a direction, not an axis: [-1 0 0] is the antipode
+\* of [1 0 0]), non-unit principal directions, face and body diagonals, a generic direction, mixed signs
+HKLs == {<<1, 0, 0>>, <<0, 1, 0>>, <<0, 0, 1>>, <<1, 1, 0>>, <<1, 1, 1>>, <<1, 2, 3>>,
+         <<-1, 0, 0>>, <<0, -3, 0>>, <<0, 0, -1>>, <<0, 2, 0>>, <<1, -1, 0>>, <<-1, 2, -3>>}
 AxesStrings == {"xy", "xz", "yx", "yz", "zx", "zy"}
 Letter(s) == CASE s = "x" -> 1 [] s = "y" -> 2 [] s = "z" -> 3
 \* ref_axes "ab": returned (xvals, yvals, zvals) = components (a, b, remaining letter)
